@@ -366,7 +366,7 @@ class Ctx:
                 from .linabs import abstract_ufs
 
                 afs, napps = abstract_ufs(list(self.assertions) + [extra])
-                if napps:
+                if True:
                     s1 = z3.Tactic("qfnra-nlsat").solver()
                     s1.set("timeout", min(self.timeout_ms, self.opts.get("nlsat_ms", 8000)))
                     s1.add(afs)
@@ -375,6 +375,9 @@ class Ctx:
                     if r1 == z3.unsat:
                         self.solver_s += time.perf_counter() - t0
                         return z3.unsat, None
+                    if r1 == z3.sat and napps == 0:
+                        self.solver_s += time.perf_counter() - t0
+                        return z3.sat, s1.model()
             except z3.Z3Exception:
                 pass
         som = lambda **kw: z3.With("simplify", som=True, **kw)
